@@ -31,7 +31,7 @@ RULE = ("kind q: histories of add (with re-adds)/remove/pop/peek/len over 2..40 
 ASSUMPTIONS = ["tasks are hashable with lawful __eq__/__hash__ (tokens mapped to pairwise unequal Python objects)",
                "priorities are finite numbers or None (no NaN, nothing float() rejects); ranks r stand for r/2 and are passed as "
                "int / float / Fraction / bool / None / omitted argument",
-               "default priority_key; the default given to pop/peek is not the private _REMOVED sentinel",
+               "default priority_key; the default given to pop/peek is any object (also a queued task, also the head) except the private _REMOVED sentinel",
                "CPython dict preserves insertion order; heapq and bisect.insort meet their documented contracts"]
 TRUSTED = ["Model/C10_Model.v is hand-written; tied to boltons.queueutils / boltons.listutils.BarrelList by the correspondence run",
            "heapq is modelled as the algorithm of Lib/heapq.py (heappush/heappop, _siftdown/_siftup), which _heapq.c is trusted to implement; bisect.insort_right as binary search + insert",
@@ -39,17 +39,35 @@ TRUSTED = ["Model/C10_Model.v is hand-written; tied to boltons.queueutils / bolt
 
 # tokens -> varied hashable python objects, pairwise != (note 1 == True == 1.0: only one of them appears)
 TASKS = ["a", 7, (1, 2), 3.5, "b", frozenset([7]), -1, "task", (), 17, "z", b"y", 99, ("t", None), 0, "", (0,), 2.25,
-         frozenset(), "A"]
+         frozenset(), "A", None]
 FACTORS_Q = [1, 1, 1, 2, 2, 3, 0, 1520]
 
 
+_TASK_OBJ = {}
+
+
 def task(tok):
-    return TASKS[tok] if tok < len(TASKS) else ("tk", tok)
+    """the SAME object every time (defaults drawn from the task universe must be identical to the queued task)"""
+    if tok not in _TASK_OBJ:
+        _TASK_OBJ[tok] = TASKS[tok] if tok < len(TASKS) else ("tk", tok)
+    return _TASK_OBJ[tok]
 
 
 def default_obj(d):
-    # defaults are never equal to a task: None or an (unhashable) list
-    return None if d == 0 else ["dflt", d]
+    """d = ["t", tok]: a default that is a task object (possibly queued right now, possibly the head);
+    d = int: an (unhashable) list that can never be a task"""
+    return task(d[1]) if isinstance(d, list) else ["dflt", d]
+
+
+def _pick_default(rng, ntasks, likely_head):
+    r = rng.random()
+    if r < 0.4:
+        return None
+    if r < 0.62:
+        return rng.choice([0, 1, 2])
+    if r < 0.8 and likely_head is not None:
+        return ["t", likely_head]
+    return ["t", rng.randrange(ntasks)]
 
 
 def prio_obj(rank, rep):
@@ -76,7 +94,7 @@ def _gen_q(rng, tier):
     factor = rng.choice(FACTORS_Q)
     nops = rng.randint(1, rng.choice([12, 40, 70] if not long else [40, 120, 220]))
     style = rng.choice(["mixed", "grow_drain", "remove_heavy", "descending", "readd"])
-    ops = []
+    ops, best = [], {}
     lo = rng.choice([0, -2, -5])
 
     def rank():
@@ -97,6 +115,8 @@ def _gen_q(rng, tier):
         else:
             w = (0.45, 0.62, 0.82, 0.93)
         if r < w[0]:
+            if ops and ops[-1][0] == "add":
+                best[ops[-1][1]] = ops[-1][2] or 0
             if style == "descending" and not phase2:
                 # every new entry sorts after all others: insort inserts at len()
                 ops.append(["add", j % 400 if ntasks > 8 else rng.randrange(ntasks), -(j // rng.choice([1, 1, 2, 3])), rng.randrange(6)])
@@ -104,16 +124,22 @@ def _gen_q(rng, tier):
                 ops.append(["add", rng.randrange(ntasks), rank(), rng.randrange(6)])
         elif r < w[1]:
             ops.append(["remove", rng.randrange(ntasks)])
-        elif r < w[2]:
-            ops.append(["pop", rng.choice([None, None, 0, 1, 2]), rng.randrange(2)])
+            best.pop(ops[-1][1], None)
         elif r < w[3]:
-            ops.append(["peek", rng.choice([None, None, 0, 1, 2]), rng.randrange(2)])
+            # the live task of highest rank added so far is probably at the head (generation-side guess only)
+            head = max(best, key=lambda t: (best[t], -t)) if best else None
+            ops.append(["pop" if r < w[2] else "peek", _pick_default(rng, ntasks, head), rng.randrange(2)])
+            if ops[-1][0] == "pop" and head is not None:
+                best.pop(head, None)
+            if rng.random() < 0.35:
+                ops.append(["len"])           # re-observe the state after every kind of pop/peek outcome
         else:
             ops.append(["len"])
     if rng.random() < 0.5:
         # drain: expose the whole hidden state through pops (bounded by the number of adds)
         nadd = sum(1 for op in ops if op[0] == "add")
-        ops += [["pop", 1, 0] for _ in range(min(nadd, ntasks) + 1)] + [["len"]]
+        dd = rng.choice([1, 1, ["t", rng.randrange(ntasks)]])      # also drain with a default that is a task
+        ops += [["pop", dd, 0] for _ in range(min(nadd, ntasks) + 1)] + [["len"]]
     return {"kind": "q", "factor": factor, "ops": ops}
 
 
@@ -132,7 +158,8 @@ def _gen_large(rng, tier):
         if rng.random() < 0.05:
             ops.append(["peek", None, 0])
     ops.append(["len"])
-    ops += [["pop", 2, 1] for _ in range(n + 1)] + [["len"]]
+    dd = rng.choice([2, ["t", rng.randrange(n)]])              # drain with a default that may be a queued task
+    ops += [["pop", dd, 1] for _ in range(n + 1)] + [["len"]]
     return {"kind": "q", "factor": factor, "ops": ops}
 
 
@@ -179,7 +206,8 @@ def _gen_churn(rng, tier):
             for _ in range(rng.randint(0, 5)):
                 ops.append(["pop", None, 0])
     ops.append(["len"])
-    ops += [["pop", 2, 1] for _ in range(len(live) + 2)] + [["len"]]
+    dd = rng.choice([2, ["t", rng.randrange(max(nxt, 1))]])
+    ops += [["pop", dd, 1] for _ in range(len(live) + 2)] + [["len"]]
     return {"kind": "q", "factor": factor, "ops": ops}
 
 
@@ -199,7 +227,7 @@ def _gen_steady(rng, tier):
         ops.append(["add", nxt, rank(), rng.randrange(6)])
         nxt += 1
     for _ in range(rounds):
-        ops.append(["pop", None, 0])
+        ops.append(["pop", None if rng.random() < 0.7 else ["t", rng.randrange(nxt)], 0])
         r = rng.random()
         if r < 0.6:
             ops.append(["add", nxt, rank(), rng.randrange(6)])
@@ -215,7 +243,8 @@ def _gen_steady(rng, tier):
         if rng.random() < 0.02:
             ops.append(["len"])
     ops.append(["len"])
-    ops += [["pop", 2, 1] for _ in range(level + rounds // 4 + 2)] + [["len"]]
+    dd = rng.choice([2, ["t", rng.randrange(nxt)]])
+    ops += [["pop", dd, 1] for _ in range(level + rounds // 4 + 2)] + [["len"]]
     return {"kind": "q", "factor": factor, "ops": ops}
 
 
@@ -349,9 +378,7 @@ def _run_queue(cls, case, inv):
                     r = f(default=default_obj(op[1]))
                 else:
                     r = f(default_obj(op[1]))
-                if r is None:
-                    out.append(["default", 0])
-                elif isinstance(r, list):
+                if isinstance(r, list):
                     assert r[0] == "dflt", r
                     out.append(["default", r[1]])
                 else:
@@ -424,6 +451,8 @@ def run_impl(case):
             for op in case["ops"]:
                 if op[0] in ("add", "remove"):
                     inv[task(op[1])] = op[1]
+                elif op[0] in ("pop", "peek") and isinstance(op[1], list):
+                    inv[task(op[1][1])] = op[1][1]
             nadd = sum(1 for op in case["ops"] if op[0] == "add")
             heap, _ = _run_queue(HeapPriorityQueue, case, inv)
             srt, maxsub = _run_queue(SortedPriorityQueue, case, inv)
@@ -465,10 +494,10 @@ def _qop(op):
         return "Add %s %s" % (cnat(op[1]), copt(None if op[2] is None else cZ(op[2])))
     if op[0] == "remove":
         return "Remove %s" % cnat(op[1])
-    if op[0] == "pop":
-        return "Pop %s" % copt(None if op[1] is None else cnat(op[1]))
-    if op[0] == "peek":
-        return "Peek %s" % copt(None if op[1] is None else cnat(op[1]))
+    if op[0] in ("pop", "peek"):
+        d = op[1]
+        dd = None if d is None else ("(DTask %s)" % cnat(d[1]) if isinstance(d, list) else "(DOther %s)" % cnat(d))
+        return "%s %s" % ("Pop" if op[0] == "pop" else "Peek", copt(dd))
     return "Len"
 
 
